@@ -28,6 +28,11 @@
 //                       <dec> for Decode, (0 obj sr ch) for the assignment.  Every frame returned by
 //                       Encode is KEPT (not copied) and reported as it is after the last operation; the
 //                       raw input of each Encode is overwritten right after the call.
+//   (12 ((id pa profile sfi ch len fill)...) cut extra)
+//                       a LONG stream given compactly: the frames are written by the reference writer with
+//                       generated payloads (byte i = fill + 31 i + i/256), cut bytes are removed from the
+//                       end and extra is appended; decoded frame after frame with the remainder fed back
+//                       -> (total ((|raw| adler32(raw) obj sr ch)...) <end>)
 //   <dec> = (0 raw left obj sr ch) | (1 code obj sr ch) | (2)      (obj sr ch = ASC() afterwards)
 // Error codes: 1 "requires 7+", 2 "invalid signature", 3 "requires 2+" (CRC), 4 "requires n"
 // (raw block), 5 invalid object, 6 invalid sample-rate, 7 invalid channels, 8 ASC "requires 2",
@@ -41,6 +46,7 @@ package aac
 import (
 	"bytes"
 	"fmt"
+	"hash/adler32"
 	"strings"
 	"testing"
 
@@ -560,6 +566,78 @@ func vC11Run(c vSx) (r vC11Res) {
 				}
 			}
 		}
+	case 12:
+		var data []byte
+		type exp struct {
+			raw []byte
+			end int
+		}
+		var want []exp
+		conformant := true
+		for _, f := range c.l[1].l {
+			h := vC11Hdr{id: uint(f.l[0].int()), pa: uint(f.l[1].int()), profile: uint(f.l[2].int()), sfi: uint(f.l[3].int()), ch: uint(f.l[4].int()),
+				fullness: 2047, crc: 4660}
+			raw := vC11Payload(f.l[5].int(), f.l[6].int())
+			data = append(data, vC11IsoFrame(h, raw)...)
+			want = append(want, exp{raw: raw, end: len(data)})
+			if h.profile > 2 || h.sfi < 1 || h.sfi > 12 || h.ch < 1 || h.ch > 7 || len(raw) < 1 || len(raw)+9-2*int(h.pa) > 8191 {
+				conformant = false
+			}
+		}
+		cut, extra := c.l[2].int(), c.l[3].b
+		if cut > len(data) {
+			cut = len(data)
+		}
+		data = append(data[:len(data)-cut], extra...)
+		if cut != 0 || len(extra) != 0 {
+			conformant = false
+		}
+		a := &ADTSImpl{}
+		var frames []vSx
+		end := vL(vZ(0))
+		n := 0
+		for left := data; len(left) > 0; {
+			d := vC11Decode(a, left)
+			if d.panicked {
+				end = vPanicObs()
+				r.bad("no-panic", "Decode panicked inside a long stream")
+				break
+			}
+			off := len(data) - len(left)
+			if d.err != nil {
+				end = vL(vZ(1), vI(vC11Code(d.err, false)), vI(d.o), vI(d.sr), vI(d.ch))
+				if conformant {
+					r.bad("long-stream", fmt.Sprintf("stream of %d bytes, %d frames: frame %d at offset %d (%d bytes follow) rejected: %v", len(data), len(want), n, off, len(left), d.err))
+				}
+				break
+			}
+			frames = append(frames, vL(vI(len(d.raw)), vU(uint64(adler32.Checksum(d.raw))), vI(d.o), vI(d.sr), vI(d.ch)))
+			if conformant {
+				if n >= len(want) {
+					r.bad("long-stream", "more frames decoded than were written")
+					break
+				}
+				if !bytes.Equal(d.raw, want[n].raw) || len(d.left) != len(data)-want[n].end {
+					r.bad("long-stream", fmt.Sprintf("stream of %d bytes: frame %d at offset %d: raw %d bytes (want %d), remainder %d bytes (next sync word is %d bytes from the end)", len(data), n, off, len(d.raw), len(want[n].raw), len(d.left), len(data)-want[n].end))
+					break
+				}
+				if len(d.left) >= 2 && (d.left[0] != 0xff || d.left[1]&0xf0 != 0xf0) {
+					r.bad("long-stream", fmt.Sprintf("frame %d: the remainder does not start at a sync word", n))
+					break
+				}
+			}
+			n++
+			if len(d.left) >= len(left) {
+				r.bad("stream-progress", "Decode did not consume anything")
+				break
+			}
+			left = d.left
+		}
+		if conformant && r.oracle == "" && n != len(want) {
+			r.bad("long-stream", fmt.Sprintf("%d of %d frames recovered", n, len(want)))
+		}
+		r.nontrivial = n >= 2
+		r.obs = vL(vI(len(data)), vLs(frames), end)
 	case 11:
 		ai, _ := NewADTS()
 		a := ai.(*ADTSImpl)
@@ -760,6 +838,49 @@ func (r *vC11Res) checkAsc(b0, b1 byte, accepted bool, o, sr, ch int, back []byt
 	if len(back) != 2 || back[0] != b0 || back[1] != b1&0xf8 {
 		r.bad("asc-rt", fmt.Sprintf("config %04x re-marshalled as %x", v, back))
 	}
+}
+
+// generated payload of the compact cases (the Coq side computes the same bytes)
+func vC11Payload(n, fill int) []byte {
+	b := make([]byte, n)
+	for i := range b {
+		b[i] = byte(fill + 31*i + i/256)
+	}
+	return b
+}
+
+// frame specs (id pa profile sfi ch len fill) whose frames add up to exactly total bytes
+func vC11FramesForTotal(rnd *vRng, total int, firstMax bool) []vSx {
+	var out []vSx
+	rem := total
+	first := true
+	for rem > 0 {
+		pa := rnd.intn(2)
+		hdr := 9 - 2*pa
+		var fl int
+		switch {
+		case first && firstMax && rem >= 8191+10:
+			pa, hdr, fl = 1, 7, 8191
+		case rem <= 8191:
+			fl = rem
+		default:
+			hi := 8191
+			if rem-10 < hi {
+				hi = rem - 10
+			}
+			fl = rnd.pickInt(hi, rnd.rng(10, hi), rnd.rng(10, 200), rnd.rng(10, hi))
+			if rem-fl < 10 {
+				fl = rem - 10
+			}
+		}
+		if fl < hdr+1 {
+			pa, hdr = 1, 7
+		}
+		first = false
+		out = append(out, vL(vI(rnd.intn(2)), vI(pa), vI(rnd.intn(3)), vI(rnd.rng(1, 12)), vI(rnd.rng(1, 7)), vI(fl-hdr), vI(rnd.intn(256))))
+		rem -= fl
+	}
+	return out
 }
 
 // ---------- generators ----------
@@ -1135,6 +1256,36 @@ func TestVerifC11(t *testing.T) {
 				hp++
 			}
 		}
+	}
+	// long streams: total length around and above 2^16 (a length check done in 16 bits, or any
+	// other use of the remaining length, shows only there), decoded frame by frame
+	totals := []int{65535, 65536, 65537, 65536 + 7 + 100, 73712, 81910, 131071, 131072, 131072 + 4321}
+	if k.thorough() {
+		totals = append(totals, 65536+8190, 65536+8191, 65536+8192, 196608+77, 262144+9, 400000)
+	}
+	for _, t := range totals {
+		runOne(vL(vZ(12), vLs(vC11FramesForTotal(k.rnd, t, true)), vZ(0), vB(nil)))
+		runOne(vL(vZ(12), vLs(vC11FramesForTotal(k.rnd, t, false)), vZ(0), vB(nil)))
+	}
+	{
+		// ten frames of the maximum size; a few hundred frames of mixed sizes; damaged tails
+		var ten, many []vSx
+		for i := 0; i < 10; i++ {
+			ten = append(ten, vL(vI(i%2), vZ(1), vI(i%3), vI(1+i), vI(1+i%7), vZ(8184), vI(i*25)))
+		}
+		runOne(vL(vZ(12), vLs(ten), vZ(0), vB(nil)))
+		nMany := 300
+		if k.thorough() {
+			nMany = 900
+		}
+		for i := 0; i < nMany; i++ {
+			pa := k.rnd.intn(2)
+			ln := k.rnd.pickInt(1, 2, k.rnd.rng(1, 60), k.rnd.rng(1, 700), k.rnd.rng(1, 700), 8182)
+			many = append(many, vL(vI(k.rnd.intn(2)), vI(pa), vI(k.rnd.intn(3)), vI(k.rnd.rng(1, 12)), vI(k.rnd.rng(1, 7)), vI(ln), vI(k.rnd.intn(256))))
+		}
+		runOne(vL(vZ(12), vLs(many), vZ(0), vB(nil)))
+		runOne(vL(vZ(12), vLs(vC11FramesForTotal(k.rnd, 70000, true)), vZ(5), vB(nil)))
+		runOne(vL(vZ(12), vLs(vC11FramesForTotal(k.rnd, 70000, true)), vZ(0), vB([]byte{0xff, 0xf1, 0x50})))
 	}
 	// several raw data blocks: 2..4 blocks x protection x id, block sizes at the edges
 	for nb := 2; nb <= 4; nb++ {
